@@ -4,7 +4,7 @@ import os
 from pyvc.api import *
 from pyvc.spec import callee_of
 
-SPEC_IMPORTS = ['contracts.common']
+SPEC_IMPORTS = ['contracts.common', 'contracts.c01']
 SPEC_FUNCTIONS = ['moves_with', 'rebase', 'to_path_spec1', 'to_path_spec2', 'with_final_newline', 'valid_renames',
                   'norm_lines', 'diff_header']
 
@@ -338,3 +338,10 @@ NOT_DECIDED = [
 TRUSTED = ['pathlib.Path modelled as normalised POSIX strings (joinpath, relative_to, parents, name, parent)',
            'parso Grammar.refactor replaces exactly the mapped nodes (assumed)',
            'builtin sorted returns a permutation ordered by key (assumed)']
+
+
+def dynamic_contracts(repo):
+    """error clause of C07: the until-range check of extract_variable / extract_function rejects only positions that
+    are really outside the text and hands the completed until-position to the refactoring (contracts shared with C01)"""
+    from contracts import c01
+    return [c for c in c01.CONTRACTS if c.id.endswith('.until')]
